@@ -189,60 +189,79 @@ def MAX_PLIES_MODEL : Nat := 800
 def pushHistory (h : List Nat) (k : Nat) : List Nat :=
   if h.length ≥ MAX_PLIES_MODEL then k :: h.take (h.length - MAX_PLIES_MODEL / 2) else k :: h
 
+/-- castling branch of do_move (position.cpp:447-466): clock, king and rook, rights, rights key, ep square -/
+def doMoveCastle (T : ZTable) (p : Position) (side m : Nat) : Position :=
+  let p := { p with halfmove := (p.halfmove + 1) % 256 }
+  let r := if side = 0 then 0 else 7
+  let p := if moveCastling m = KING_CASTLING then
+      movePiece T (movePiece T p (mkSquare r 4) (mkSquare r 6)) (mkSquare r 7) (mkSquare r 5)
+    else
+      movePiece T (movePiece T p (mkSquare r 4) (mkSquare r 2)) (mkSquare r 0) (mkSquare r 3)
+  let p := { p with castling := clearBits p.castling (castlingRightsOf side) }
+  let p := setCastlingKey T p
+  { p with ep := 64 }
+
+/-- the five castling-right clauses of do_move (position.cpp:503-516) -/
+def updateRights (c side moved captured f t : Nat) : Nat :=
+  let c := if kindOf moved = KING then clearBits c (castlingRightsOf side) else c
+  let c := if kindOf moved = ROOK ∧ f = (if side = 0 then 7 else 63) then clearBits c (castlingRightsOf side &&& KING_CASTLING) else c
+  let c := if kindOf moved = ROOK ∧ f = (if side = 0 then 0 else 56) then clearBits c (castlingRightsOf side &&& QUEEN_CASTLING) else c
+  let c := if captured = ROOK ∧ t = (if side = 0 then 63 else 7) then clearBits c (castlingRightsOf (1 - side) &&& KING_CASTLING) else c
+  let c := if captured = ROOK ∧ t = (if side = 0 then 56 else 0) then clearBits c (castlingRightsOf (1 - side) &&& QUEEN_CASTLING) else c
+  c
+
+/-- `if (captured_piece != NO_PIECE) remove_piece(to(move))` -/
+def removeCaptured (T : ZTable) (p : Position) (t : Nat) : Position :=
+  if p.at t ≠ 0 then removePiece T p t else p
+
+/-- promotion (`remove_piece(from); add_piece(promoted, to)`) or plain `move_piece(from, to)` -/
+def placeMoved (T : ZTable) (p : Position) (side m : Nat) : Position :=
+  if movePromo m ≠ 0 then addPiece T (removePiece T p (moveFrom m)) (mkPiece side (movePromo m)) (moveTo m)
+  else movePiece T p (moveFrom m) (moveTo m)
+
+/-- piece movement of the non-castling branch (position.cpp:481-518): en passant, or capture / promotion / plain move
+    followed by the rights update -/
+def doMovePieces (T : ZTable) (p : Position) (side m : Nat) : Position :=
+  let f := moveFrom m
+  let t := moveTo m
+  let moved := p.at f
+  let capturedPc := p.at t
+  if kindOf moved = PAWN ∧ t = p.ep then
+    removePiece T (movePiece T p f t) (if side = 0 then t - 8 else t + 8)
+  else
+    let p2 := placeMoved T (removeCaptured T p t) side m
+    setCastlingKey T { p2 with castling := updateRights p2.castling side moved (kindOf capturedPc) f t }
+
+/-- the ep square after the move: set after a double pawn push (with its key), cleared otherwise -/
+def setEpAfter (T : ZTable) (p : Position) (side moved f t : Nat) : Position :=
+  let epRank := if side = 0 then 3 else 4
+  let rank2 := if side = 0 then 1 else 6
+  if kindOf moved = PAWN ∧ rankOf f = rank2 ∧ rankOf t = epRank then
+    let e := if side = 0 then t - 8 else t + 8
+    { p with ep := e, hash := { p.hash with epK := T.ep (fileOf e) } }
+  else { p with ep := 64 }
+
+/-- the common prologue of do_move: side flipped (with its key), ply counter bumped, ep key cleared -/
+def preMove (T : ZTable) (p : Position) : Position :=
+  { (changeSide T p) with ply := (changeSide T p).ply + 1, hash := { (changeSide T p).hash with epK := 0 } }
+
+/-- half-move clock of the non-castling branch: +1 (uint8) for a quiet non-pawn move, else reset -/
+def clockStep (q : Position) (m : Nat) : Position :=
+  if kindOf (q.at (moveFrom m)) ≠ PAWN ∧ kindOf (q.at (moveTo m)) = 0 then { q with halfmove := (q.halfmove + 1) % 256 }
+  else { q with halfmove := 0 }
+
+def withHistory (p : Position) : Position := { p with history := pushHistory p.history p.hash.key }
+
 /-- `Position::do_move`; returns the new position and the packed MoveInfo -/
 def doMove (T : ZTable) (p0 : Position) (m : Nat) : Position × Nat :=
   let side := p0.side
-  let p := changeSide T p0
-  let p := { p with ply := p.ply + 1 }
-  let prevCastling := p.castling
-  let prevEp := p.ep
-  let hm := p.halfmove
-  let p := { p with hash := { p.hash with epK := 0 } }
+  let q := preMove T p0
   if moveCastling m ≠ 0 then
-    let p := { p with halfmove := (p.halfmove + 1) % 256 }
-    let r := if side = 0 then 0 else 7
-    let p := if moveCastling m = KING_CASTLING then
-        movePiece T (movePiece T p (mkSquare r 4) (mkSquare r 6)) (mkSquare r 7) (mkSquare r 5)
-      else
-        movePiece T (movePiece T p (mkSquare r 4) (mkSquare r 2)) (mkSquare r 0) (mkSquare r 3)
-    let p := { p with castling := clearBits p.castling (castlingRightsOf side) }
-    let p := setCastlingKey T p
-    let p := { p with ep := 64 }
-    let k := p.hash.key
-    ({ p with history := pushHistory p.history k }, mkMoveInfo 0 prevCastling prevEp false hm)
+    (withHistory (doMoveCastle T q side m), mkMoveInfo 0 q.castling q.ep false q.halfmove)
   else
-    let f := moveFrom m
-    let t := moveTo m
-    let moved := p.at f
-    let capturedPc := p.at t
-    let captured := kindOf capturedPc
-    let p := if kindOf moved ≠ PAWN ∧ captured = 0 then { p with halfmove := (p.halfmove + 1) % 256 }
-             else { p with halfmove := 0 }
-    let isEp := kindOf moved = PAWN ∧ t = p.ep
-    let p :=
-      if isEp then
-        let p := movePiece T p f t
-        removePiece T p (if side = 0 then t - 8 else t + 8)
-      else
-        let p := if capturedPc ≠ 0 then removePiece T p t else p
-        let p := if movePromo m ≠ 0 then addPiece T (removePiece T p f) (mkPiece side (movePromo m)) t
-                 else movePiece T p f t
-        let c := p.castling
-        let c := if kindOf moved = KING then clearBits c (castlingRightsOf side) else c
-        let c := if kindOf moved = ROOK ∧ f = (if side = 0 then 7 else 63) then clearBits c (castlingRightsOf side &&& KING_CASTLING) else c
-        let c := if kindOf moved = ROOK ∧ f = (if side = 0 then 0 else 56) then clearBits c (castlingRightsOf side &&& QUEEN_CASTLING) else c
-        let c := if captured = ROOK ∧ t = (if side = 0 then 63 else 7) then clearBits c (castlingRightsOf (1 - side) &&& KING_CASTLING) else c
-        let c := if captured = ROOK ∧ t = (if side = 0 then 56 else 0) then clearBits c (castlingRightsOf (1 - side) &&& QUEEN_CASTLING) else c
-        setCastlingKey T { p with castling := c }
-    let epRank := if side = 0 then 3 else 4
-    let rank2 := if side = 0 then 1 else 6
-    let p :=
-      if kindOf moved = PAWN ∧ rankOf f = rank2 ∧ rankOf t = epRank then
-        let e := if side = 0 then t - 8 else t + 8
-        { p with ep := e, hash := { p.hash with epK := T.ep (fileOf e) } }
-      else { p with ep := 64 }
-    let k := p.hash.key
-    ({ p with history := pushHistory p.history k }, mkMoveInfo captured prevCastling prevEp isEp hm)
+    let moved := q.at (moveFrom m)
+    (withHistory (setEpAfter T (doMovePieces T (clockStep q m) side m) side moved (moveFrom m) (moveTo m)),
+     mkMoveInfo (kindOf (q.at (moveTo m))) q.castling q.ep (decide (kindOf moved = PAWN ∧ moveTo m = q.ep)) q.halfmove)
 
 /-- `Position::undo_move` -/
 def undoMove (T : ZTable) (p0 : Position) (m mi : Nat) : Position :=
